@@ -92,3 +92,18 @@ Lemma hblock_upd_other (h : heap) b b' d : b <> b' -> hblock (upd h b d) b' = hb
 Proof. intro H. unfold hblock. apply nth_upd_other. exact H. Qed.
 Lemma heap_upd_length (h : heap) b d : length (upd h b d) = length h.
 Proof. apply upd_length. Qed.
+
+(* the n cells of the object at p (copying a record: `new T(other)`) *)
+Definition hcells (h : heap) (p : hptr) (n : nat) : option (list val) :=
+  match p with
+  | HNull => None
+  | HPtr b i =>
+      if (0 <=? i) && (i + Z.of_nat n <=? Z.of_nat (length (hblock h b)))
+      then Some (firstn n (skipn (Z.to_nat i) (hblock h b))) else None
+  end.
+Lemma hcells_whole h b n : n = length (hblock h b) -> hcells h (HPtr b 0) n = Some (hblock h b).
+Proof.
+  intros ->. cbn [hcells]. replace (0 <=? 0) with true by reflexivity.
+  replace (0 + Z.of_nat (length (hblock h b)) <=? Z.of_nat (length (hblock h b))) with true by (symmetry; apply Z.leb_le; lia).
+  cbn [andb Z.to_nat skipn]. rewrite firstn_all. reflexivity.
+Qed.
